@@ -17,6 +17,7 @@ CONSTANTS Mode,      \* "bfs" | "sim"
           Mix,       \* bfs: histories up to this length mix the families
           Bases,     \* initial documents: "bare" (no Info dictionary), "info" (Info dictionary with standard entries)
           DeepBases,
+          Std,       \* TRUE: the property alphabet uses standard Info dictionary entries (Subject, Author)
           Emit
 VARIABLES base, hist, len
 vars == <<docvars, base, hist, len>>
@@ -28,12 +29,13 @@ Tok(text, parts, key) == [text |-> text, parts |-> parts, key |-> key]
 Plain(t) == Tok(t, {t}, t)
 KwToks == <<Plain("alpha"), Plain("Zo<U+00EB> <U+2713> <U+65E5><U+672C><U+8A9E>"), Plain("two words"), Tok("a,b;c", {"a", "b", "c"}, "a,b;c"),
             Tok(" pad ", {"pad"}, "pad"), Plain("(par\\en)"), Plain("b"), Plain("<U+1F600> emoji")>>
-KwQuick == {1, 2, 4, 5, 6, 7}
+KwQuick == {2, 4, 5, 7}
 
-PropKeys == <<"Custom", "<U+041A><U+043B><U+044E><U+0447> (1)/x", "a#1b", "My Key">>
+PropKeys == IF Std THEN <<"Subject", "Custom", "Author", "My Key">>
+            ELSE <<"Custom", "<U+041A><U+043B><U+044E><U+0447> (1)/x", "a#1b", "My Key">>
 PropVals == <<"plain", "Zo<U+00EB> <U+2713> (x) \\ y", "v = 1; x, y", "<U+1F600> <U+65E5><U+672C><U+8A9E>">>
 PkQuick  == {1, 2, 3}
-PvQuick  == {1, 2, 3}
+PvQuick  == {2, 3}
 
 Layouts == {"TwoColumnLeft", "SinglePage", "TwoPageRight"}
 Modes   == {"UseOutlines", "FullScreen", "UseAttachments"}
@@ -46,7 +48,7 @@ AttNames == <<"plain.txt", "Zo<U+00EB> <U+2713>.bin", "sp ace (1).dat", "<U+65E5
 AttData  == <<"bin", "big", "empty", "text">>        \* byte contents are defined by the harness per id
 AttDescs == <<"", "Beschreibung <U+00FC>, (x)">>
 Att(d, desc) == [data |-> d, desc |-> desc]
-AnQuick == {1, 2, 3}
+AnQuick == {1, 2}
 
 ---------------------------------------------------------------------------
 SeqOfSet(S) == SetToSeq(S)
@@ -85,7 +87,7 @@ DoAttExtract(ns) == AttExtract(ns) /\ Log("att_extract", SeqOfSet(ns), <<>>, <<>
 ---------------------------------------------------------------------------
 NextKw ==
   \/ \E i \in KwQuick : DoKwAdd({i}) \/ DoKwRemove({i})
-  \/ DoKwAdd({1, 2}) \/ DoKwRemove({1, 7}) \/ DoKwRemoveAll
+  \/ DoKwAdd({1, 6}) \/ DoKwRemove({1, 7}) \/ DoKwRemoveAll
 NextProp ==
   \/ \E k \in PkQuick, v \in PvQuick : DoPropAdd(Fn1(PropKeys[k], PropVals[v]))
   \/ DoPropAdd(Fn2(PropKeys[1], PropVals[2], PropKeys[2], PropVals[1]))
@@ -100,7 +102,7 @@ NextAtt ==
   \/ \E n \in AnQuick, d \in {1, 2} : DoAttAdd(Fn1(AttNames[n], Att(AttData[d], AttDescs[((n + d) % 2) + 1])))
   \/ DoAttAdd(Fn2(AttNames[1], Att("text", ""), AttNames[2], Att("empty", AttDescs[2])))
   \/ \E n \in AnQuick : DoAttRemove({AttNames[n]}) \/ DoAttExtract({AttNames[n]})
-  \/ DoAttRemove({AttNames[1], AttNames[2]}) \/ DoAttRemoveAll \/ DoAttExtract({}) \/ DoAttExtract({AttNames[1], AttNames[3]})
+  \/ DoAttRemove({AttNames[1], AttNames[2]}) \/ DoAttRemoveAll \/ DoAttExtract({}) \/ DoAttExtract({AttNames[1], AttNames[3]}) \/ DoAttAdd(Fn1(AttNames[3], Att("text", AttDescs[2])))
 
 RS(S) == RandomElement(S)
 RandIdx(n)  == LET a == RS(1..n) b == RS(1..n) IN IF RS(1..3) = 1 THEN {a, b} ELSE {a}
